@@ -334,29 +334,6 @@ theorem tie_scn_remove_intersection_list (s : Scn) (is : List Intersection) :
   intro s x is
   rw [tie_scn_remove_intersection_one, Scn.removeInters]; exact andThen_match _ _
 
-/-- `Scenario.remove_lanelet` (list form; `hang` := the model of remove_hanging_lanelet_members) is the model's `removeLanelets`. -/
-theorem tie_scn_remove_lanelet_list (s : Scn) (args : List RmArg) (r : Bool) :
-    Gen.Scenario_remove_lanelet_list s args r Scn.removeHanging = s.removeLanelets args r := by
-  have loop : ∀ s : Scn, PyR.forEach (fun self (la : RmArg) =>
-        if (PyR.findLanelet self.net la.id).isNone = true then (self, some Err.key)
-        else PyR.idSetRemove ({ self with net := Gen.LaneletNetwork_remove_lanelet self.net la.id } : Scn) la.id) s args
-      = s.removeLaneletLoop (args.map (·.id)) := by
-    intro s
-    refine forEach_eq _ (·.id) Scn.removeLaneletLoop (fun _ => rfl) ?_ s args
-    intro s x is
-    rw [Scn.removeLaneletLoop]
-    have hn : (PyR.findLanelet s.net x.id).isNone = !(s.net.lids.contains x.id) :=
-      find_isNone (fun (x : Lanelet) => x.id) s.net.lanelets x.id
-    simp only [hn, tie_remove_lanelet, PyR.idSetRemove]
-    by_cases h : s.net.lids.contains x.id = true
-    · rw [if_pos h, if_neg (by rw [h]; decide)]; exact andThen_match _ _
-    · rw [if_neg h, if_pos (by cases hc : s.net.lids.contains x.id <;> simp_all)]; rfl
-  unfold Gen.Scenario_remove_lanelet_list Scn.removeLanelets
-  simp only [andThen_pure, loop]
-  cases r
-  · rfl
-  · simp only [if_true]; exact (andThen_match _ _).symm
-
 theorem foldl_append_if (c : Elem → Bool) (xs : List Elem) (acc : List Id) :
     xs.foldl (fun acc t => if c t then acc ++ [t.1] else acc) acc = acc ++ (xs.filter c).map (·.1) := by
   induction xs generalizing acc with
@@ -386,5 +363,64 @@ theorem tie_hanging_members (s : Scn) (args : List RmArg) :
   rw [foldl_append_if (fun t => _ && !_), foldl_append_if (fun t => _ && !_)]
   simp only [List.nil_append, Net.sids, Net.tids, List.filter_map, List.flatMap_def, PyR.mem]
   rfl
+
+
+theorem foldl_append_found (c : Elem → Bool) (g : Id → Elem) (xs : List Elem) (acc : List Elem) :
+    xs.foldl (fun acc t => if c t then acc ++ [g t.1] else acc) acc = acc ++ (xs.filter c).map (fun t => g t.1) := by
+  induction xs generalizing acc with
+  | nil => simp
+  | cons x xs ih =>
+    simp only [List.foldl_cons, ih, List.filter_cons]
+    by_cases h : c x = true <;> simp [h]
+
+theorem foundSign_id (n : Net) (i : Id) : (PyR.foundSign n i).1 = i := by
+  unfold PyR.foundSign PyR.findSign
+  rcases h : n.signs.find? (fun s => s.1 == i) with _ | e
+  · simp [h]
+  · have := List.find?_some h
+    simpa [h] using this
+
+theorem foundLight_id (n : Net) (i : Id) : (PyR.foundLight n i).1 = i := by
+  unfold PyR.foundLight PyR.findLight
+  rcases h : n.lights.find? (fun s => s.1 == i) with _ | e
+  · simp [h]
+  · have := List.find?_some h
+    simpa [h] using this
+
+/-- The WHOLE of `remove_hanging_lanelet_members` — which signs / lights are picked AND the two final calls of
+remove_traffic_sign / remove_traffic_light (list forms) with them, in this order, the lights only when the signs went
+through — is the model's `Scn.removeHanging`. -/
+theorem tie_remove_hanging_lanelet_members (s : Scn) (args : List RmArg) :
+    Gen.Scenario_remove_hanging_lanelet_members s args = s.removeHanging args := by
+  unfold Gen.Scenario_remove_hanging_lanelet_members Scn.removeHanging Net.hangingSigns Net.hangingLights
+  simp only [mem_diff, contains_unionAll, andThen_pure, tie_scn_remove_traffic_sign_list, tie_scn_remove_traffic_light_list]
+  rw [foldl_append_found (fun t => _ && !_), foldl_append_found (fun t => _ && !_)]
+  simp only [List.nil_append, List.map_map, Function.comp_def, foundSign_id, foundLight_id, andThen_match,
+    Net.sids, Net.tids, List.filter_map, List.flatMap_def, PyR.mem]
+  rfl
+
+/-- `Scenario.remove_lanelet` (list form, calling the TRANSLATED remove_hanging_lanelet_members) is the model's `removeLanelets`. -/
+theorem tie_scn_remove_lanelet_list (s : Scn) (args : List RmArg) (r : Bool) :
+    Gen.Scenario_remove_lanelet_list s args r = s.removeLanelets args r := by
+  have loop : ∀ s : Scn, PyR.forEach (fun self (la : RmArg) =>
+        if (PyR.findLanelet self.net la.id).isNone = true then (self, some Err.key)
+        else PyR.idSetRemove ({ self with net := Gen.LaneletNetwork_remove_lanelet self.net la.id } : Scn) la.id) s args
+      = s.removeLaneletLoop (args.map (·.id)) := by
+    intro s
+    refine forEach_eq _ (·.id) Scn.removeLaneletLoop (fun _ => rfl) ?_ s args
+    intro s x is
+    rw [Scn.removeLaneletLoop]
+    have hn : (PyR.findLanelet s.net x.id).isNone = !(s.net.lids.contains x.id) :=
+      find_isNone (fun (x : Lanelet) => x.id) s.net.lanelets x.id
+    simp only [hn, tie_remove_lanelet, PyR.idSetRemove]
+    by_cases h : s.net.lids.contains x.id = true
+    · rw [if_pos h, if_neg (by rw [h]; decide)]; exact andThen_match _ _
+    · rw [if_neg h, if_pos (by cases hc : s.net.lids.contains x.id <;> simp_all)]; rfl
+  unfold Gen.Scenario_remove_lanelet_list Scn.removeLanelets
+  simp only [andThen_pure, loop, tie_remove_hanging_lanelet_members]
+  cases r
+  · rfl
+  · simp only [if_true]; exact (andThen_match _ _).symm
+
 
 end CR.Refs
